@@ -1555,7 +1555,10 @@ Lemma build21_inv counted x file :
     secs_export (E (x_dek x)) (x_mac x) (x_nonce x)
                 (ctr_of_nonce (x_nonce x) + N.of_nat ((length signed + x_sigsize x) / 16)) (x_secs x) = Ok bs /\
     kw_unwrap (D (x_kek x)) (firstn 72 kb) = Some (x_dek x ++ x_mac x) /\
-    hm = hmac256 (x_mac x) (slice bs 16 (48 + 32 * k)).
+    hm = hmac256 (x_mac x) (slice bs 16 (48 + 32 * k)) /\
+    (exists ib fbtb fbsid mm,
+       ihdr_export (mkIhdr (x_nonce x) (x_pad x) 2 1 (x_flags x) ib fbtb fbsid 208 6 8 5 mm (x_ts x) (x_pv x) (x_cv x) (x_build x)) = Ok hb) /\
+    cb_export (x_cb x) (x_build x) (N.of_nat (208 + cb_raw_size (x_cb x))) = Ok cbb.
 Proof.
   intros (Wsecs & Wdek & Wmac & Wsig & Wpv & Wcv) H. unfold build21_gen in H.
   destruct (x_secs x) as [|s0 st] eqn:Esecs; [discriminate|]. rewrite <- Esecs in *.
@@ -1601,7 +1604,8 @@ Proof.
   replace (208 + cbraw + shasz + x_sigsize x)%nat with bsoff by (unfold bsoff; lia).
   split; [unfold aligned16 in Abs; now apply Nat.eqb_eq in Abs|]. split; [exact Ebs|]. split.
   - unfold kb. rewrite (firstn_app_exact kb0 _ 72 Lkb0). exact Hunwrap.
-  - unfold hm. f_equal. f_equal. lia.
+  - split; [unfold hm; f_equal; f_equal; lia|]. split; [|exact Ecb].
+    eexists _, _, _, _. exact Ehb.
 Qed.
 
 End CipherProofs2.
@@ -1644,7 +1648,7 @@ Lemma coverage21_lemma counted x file :
     covered (x_mac x) bs (length (x_secs x)).
 Proof.
   intros W H. destruct (build21_inv E D E_len DE counted x file W H) as (hb & hm & kb & cbb & bs & k & Hinv).
-  cbv zeta in Hinv. destruct Hinv as (Hfile & L1 & L2 & L3 & L4 & L5 & _ & Hexp & Hkw & Hhm).
+  cbv zeta in Hinv. destruct Hinv as (Hfile & L1 & L2 & L3 & L4 & L5 & _ & Hexp & Hkw & Hhm & _).
   destruct W as (Wsecs & _ & _ & Wsig & _).
   exists hb, hm, kb, cbb, bs, k. cbv zeta.
   split; [exact Hfile|]. split; [exact L1|]. split; [exact L2|]. split; [exact L3|]. split; [exact L4|].
@@ -1653,6 +1657,253 @@ Proof.
 Qed.
 
 End CipherProofs3.
+
+(* ------------------------------------------------------------------ BootSectionV2.parse / BootImageV21.parse on built files *)
+Lemma check_groups_SS mac n' per rem d t :
+  check_groups mac (S (S n')) per rem d t =
+  eqb_list (hmac256 mac (firstn per d)) (firstn 32 t) && check_groups mac (S n') per (rem - per) (skipn per d) (skipn 32 t).
+Proof. reflexivity. Qed.
+
+Lemma check_groups_built mac per : forall n body rest,
+  (0 < n)%nat -> ((n - 1) * per <= length body)%nat ->
+  check_groups mac n per (length body) (body ++ rest) (concat (map (hmac256 mac) (hmac_groups n per body))) = true.
+Proof.
+  induction n as [|n IH]; intros body rest Hn Hlen; [lia|].
+  destruct n as [|n'].
+  - cbn [hmac_groups map concat check_groups Nat.eqb]. rewrite app_nil_r.
+    rewrite (firstn_app_exact body rest _ eq_refl).
+    rewrite firstn_all2 by (rewrite hmac256_length; lia). rewrite eqb_list_refl. reflexivity.
+  - change (hmac_groups (S (S n')) per body) with (firstn per body :: hmac_groups (S n') per (skipn per body)).
+    cbn [map concat].
+    rewrite check_groups_SS.
+    assert (Hper : (per <= length body)%nat) by nia.
+    rewrite firstn_app. replace (per - length body)%nat with 0%nat by lia. change (firstn 0 rest) with (@nil N). rewrite app_nil_r.
+    rewrite (firstn_app_exact _ _ 32 (hmac256_length _ _)), (skipn_app_exact _ _ 32 (hmac256_length _ _)).
+    rewrite eqb_list_refl. cbn [andb].
+    rewrite skipn_app. replace (per - length body)%nat with 0%nat by lia. change (skipn 0 rest) with rest.
+    replace (length body - per)%nat with (length (skipn per body)) by (rewrite skipn_length; reflexivity).
+    apply IH; [lia|]. rewrite skipn_length. nia.
+Qed.
+
+Section ParseProofs.
+Variable ek : list N -> list N.
+Hypothesis ek_len : forall b, length (ek b) = 16%nat.
+
+Lemma sec_export_parse mac nonce ctr s b :
+  forallb wf_cmd (s_cmds s) = true -> sec_export ek mac nonce ctr s = Ok b ->
+  exists os cd, cmds_export (s_cmds s) = Ok cd /\ Forall2 (fun c o => cmd_obs c = Ok o) (s_cmds s) os /\
+  forall pre post off, length pre = off ->
+    sec_parse ek mac nonce ctr (pre ++ b ++ post) off =
+    Ok (s_uid s, N.of_nat (sec_hmac_count (s_hmac s) (length cd)), os, length b).
+Proof.
+  intros W H. unfold sec_export in H.
+  destruct (cmds_stream _ W) as (cd & os & Hcd & Hcdm & Hcdl & Hos & Hfuel).
+  destruct (s_cmds s) as [|c0 ct] eqn:Ecs; [discriminate|]. rewrite <- Ecs in *. rewrite Hcd in H.
+  assert (Hcd16 : (16 <= length cd)%nat) by (rewrite Ecs in Hcdl; cbn [length] in Hcdl; lia).
+  rewrite (pad16z_mult cd Hcdm) in H.
+  set (count := (length cd / 16)%nat) in *.
+  set (hc := sec_hmac_count (s_hmac s) (length cd)) in *.
+  destruct (sec_hmac_count_bounds (s_hmac s) (length cd) Hcd16 Hcdm) as [Hhc1 Hhc2]. fold hc count in Hhc1, Hhc2.
+  set (h := mkHdr TAG_TAG (N.lor SECT_BOOTABLE SECT_LAST_SECT) (s_uid s) (N.of_nat count) (N.of_nat hc)) in *.
+  destruct (hdr_fits h) eqn:Hf; [|discriminate]. cbn [negb] in H.
+  destruct (U32 <? ctr + N.of_nat (3 + 2 * hc + count)) eqn:Hov; [discriminate|]. apply N.ltb_ge in Hov.
+  set (ench := xblock ek nonce ctr (hdr_export h)) in *.
+  set (body := concat (xblocks ek nonce (ctr + N.of_nat (1 + (hc + 1) * 2)) (chunks 16 cd))) in *.
+  set (table := concat (map (hmac256 mac) (hmac_groups hc (count / hc * 16) body))) in *.
+  injection H as <-.
+  exists os, cd. split; [exact Hcd|]. split; [exact Hos|].
+  assert (Lench : length ench = 16%nat) by (apply xblock_length; [assumption|apply hdr_export_length]).
+  assert (Lhm : length (hmac256 mac ench) = 32%nat) by apply hmac256_length.
+  assert (Ltab : length table = (32 * hc)%nat) by (unfold table; rewrite table_length, hmac_groups_length; reflexivity).
+  assert (Lbody : length body = (16 * count)%nat).
+  { unfold body. rewrite (body_length ek ek_len) by assumption. unfold count. lia. }
+  assert (Lb : length (ench ++ hmac256 mac ench ++ table ++ body) = (48 + 32 * hc + 16 * count)%nat).
+  { rewrite !app_length, Lench, Lhm, Ltab, Lbody. lia. }
+  intros pre post off Hpre.
+  set (file := pre ++ (ench ++ hmac256 mac ench ++ table ++ body) ++ post).
+  assert (S1 : slice file off (off + 16) = ench).
+  { unfold file. rewrite <- !app_assoc. rewrite <- Lench. now apply slice_at. }
+  assert (S2 : slice file (off + 16) (off + 48) = hmac256 mac ench).
+  { unfold file. rewrite <- !app_assoc. rewrite (app_assoc pre ench).
+    replace (off + 48)%nat with ((off + 16) + length (hmac256 mac ench))%nat by lia.
+    apply slice_at. rewrite app_length. lia. }
+  assert (S3 : slice file (off + 48) (off + 48 + 32 * hc) = table).
+  { unfold file. rewrite <- !app_assoc. rewrite (app_assoc pre ench), (app_assoc (pre ++ ench)).
+    rewrite <- Ltab. apply slice_at. rewrite !app_length. lia. }
+  assert (S4 : slice file (off + 48 + 32 * hc) (off + 48 + 32 * hc + count * 16) = body).
+  { unfold file. rewrite <- !app_assoc.
+    rewrite (app_assoc pre ench), (app_assoc (pre ++ ench)), (app_assoc ((pre ++ ench) ++ _)).
+    replace (count * 16)%nat with (length body) by lia. apply slice_at. rewrite !app_length. lia. }
+  assert (S5 : skipn (off + 48 + 32 * hc) file = body ++ post).
+  { unfold file. rewrite <- !app_assoc.
+    rewrite (app_assoc pre ench), (app_assoc (pre ++ ench)), (app_assoc ((pre ++ ench) ++ _)).
+    apply skipn_app_exact. rewrite !app_length. lia. }
+  assert (Lfile : length file = (off + (48 + 32 * hc + 16 * count) + length post)%nat).
+  { unfold file. rewrite !app_length. rewrite !app_length in Lb. lia. }
+  unfold sec_parse. fold file. rewrite S1, S2, eqb_list_refl. cbn [negb].
+  replace (U32 <=? ctr) with false by (symmetry; apply N.leb_gt; lia).
+  unfold ench at 1. rewrite (xblock_invol ek ek_len) by apply hdr_export_length.
+  rewrite <- (app_nil_r (hdr_export h)). rewrite hdr_parse_export by assumption.
+  cbn [h_count h_data h_tag h_addr h].
+  replace (nlen file <? N.of_nat hc) with false by (symmetry; apply N.ltb_ge; unfold nlen; rewrite Lfile; lia).
+  replace (nlen file <? N.of_nat count) with false by (symmetry; apply N.ltb_ge; unfold nlen; rewrite Lfile; lia).
+  cbn [orb]. rewrite !Nat2N.id.
+  replace (Nat.eqb hc 0) with false by (symmetry; apply Nat.eqb_neq; lia).
+  rewrite S3, S4, S5.
+  replace (count * 16)%nat with (length body) by lia.
+  unfold table at 1. rewrite check_groups_built by (try lia; rewrite Lbody; nia). cbn [negb].
+  rewrite Lbody.
+  replace (negb (Nat.eqb (16 * count) 0) && (U32 <? ctr + 1 + (N.of_nat hc + 1) * 2 + N.of_nat ((16 * count + 15) / 16)))
+    with false by (symmetry; apply andb_false_iff; right; apply N.ltb_ge; lia).
+  replace (ctr + 1 + (N.of_nat hc + 1) * 2) with (ctr + N.of_nat (1 + (hc + 1) * 2)) by lia.
+  assert (Hplain : concat (xblocks ek nonce (ctr + N.of_nat (1 + (hc + 1) * 2)) (chunks 16 body)) = cd)
+    by (unfold body; apply (body_roundtrip ek ek_len); assumption).
+  rewrite !Hplain.
+  destruct (Hfuel (S (length cd)) ltac:(lia)) as [Hp _]. rewrite Hp.
+  rewrite Lb. reflexivity.
+Qed.
+
+End ParseProofs.
+
+Section ParseImage.
+Variable E D : list N -> list N -> list N.
+Hypothesis E_len : forall k b, length (E k b) = 16%nat.
+Hypothesis DE : forall k b, length b = 16%nat -> D k (E k b) = b.
+
+Lemma parse21_first_section_lemma counted x file :
+  wf_sbin x -> bcd3 (x_pv x) = true -> bcd3 (x_cv x) = true -> aes_key_ok (x_kek x) = true ->
+  build21_gen E counted x = Ok file ->
+  exists s0 rest os cd,
+    x_secs x = s0 :: rest /\ cmds_export (s_cmds s0) = Ok cd /\ Forall2 (fun c o => cmd_obs c = Ok o) (s_cmds s0) os /\
+    parse21 E D true (x_sigsize x) (x_kek x) file =
+    Ok (mkParsed 32776 (x_pv x) (x_cv x) (x_build x) (x_ts x / 1000000 * 1000000) (x_nonce x) (x_dek x) (x_mac x)
+                 [(s_uid s0, N.of_nat (sec_hmac_count (s_hmac s0) (length cd)), os)] (signed_len_of x) (x_sigsize x)).
+Proof.
+  intros W Hpv Hcv Hkek H.
+  destruct (build21_inv E D E_len DE counted x file W H) as (hb & hm & kb & cbb & bs & k & Hinv).
+  cbv zeta in Hinv.
+  destruct Hinv as (Hfile & Lhb & Lhm & Lkb & Lcbb & Lsigned & Hal & Hexp & Hkw & _ & (ib & fbtb & fbsid & mm & Ehb) & Ecb).
+  destruct W as (Wsecs & Wdek & Wmac & Wsig & _ & _).
+  set (sha := has_sha (x_flags x)) in *.
+  set (cbraw := cb_raw_size (x_cb x)) in *.
+  set (shab := if sha then sha256 bs else []) in *.
+  set (signed := hb ++ hm ++ kb ++ cbb ++ shab) in *.
+  set (shasz := if sha then 32%nat else 0%nat).
+  assert (Lshab : length shab = shasz) by (unfold shab, shasz; destruct sha; [apply sha256_length|reflexivity]).
+  unfold signed_len_of in *. fold sha cbraw shasz in Lsigned |- *.
+  (* first section *)
+  destruct (x_secs x) as [|s0 st] eqn:Esecs.
+  { unfold build21_gen in H. rewrite Esecs in H. discriminate. }
+  rewrite Lsigned in Hexp. cbn [secs_export] in Hexp.
+  destruct (sec_export (E (x_dek x)) (x_mac x) (x_nonce x) _ s0) as [b0|] eqn:Eb0; [|discriminate].
+  destruct (secs_export (E (x_dek x)) (x_mac x) (x_nonce x) _ st) as [r0|] eqn:Er0; [|discriminate].
+  injection Hexp as Hbs.
+  assert (Ws0 : forallb wf_cmd (s_cmds s0) = true) by now inversion Wsecs.
+  destruct (sec_export_parse (E (x_dek x)) (E_len _) _ _ _ _ _ Ws0 Eb0) as (os & cd & Hcd & Hos & Hparse).
+  exists s0, st, os, cd. split; [reflexivity|]. split; [exact Hcd|]. split; [exact Hos|].
+  (* the parser *)
+  rewrite Lsigned in Hal.
+  set (index2 := (208 + cbraw + shasz + x_sigsize x)%nat) in *.
+  assert (Lpre : length (signed ++ x_sig x) = index2) by (rewrite app_length, Lsigned, Wsig; reflexivity).
+  unfold parse21. destruct (x_kek x) as [|k0 kt] eqn:Ekek; [discriminate Hkek|]. rewrite <- Ekek in *.
+  change (IHDR_SIZE + 32)%nat with 128%nat. change PRE_SIZE with 208%nat. change IHDR_SIZE with 96%nat.
+  assert (Skb : slice file 128 208 = kb).
+  { rewrite Hfile. unfold signed. rewrite <- !app_assoc. rewrite (app_assoc hb hm).
+    replace 208%nat with (128 + length kb)%nat by (rewrite Lkb; reflexivity). apply slice_at. rewrite app_length. lia. }
+  rewrite Skb, Lkb. change (80 - 8)%nat with 72%nat.
+  unfold py_unwrap. rewrite Hkek. cbn [negb].
+  assert (L72 : length (firstn 72 kb) = 72%nat) by (rewrite firstn_length, Lkb; reflexivity).
+  rewrite L72. change (Nat.ltb 72 24 || negb (Nat.eqb (72 mod 8) 0)) with false. cbv iota.
+  rewrite Hkw. rewrite (firstn_app_exact _ _ 32 Wdek), (skipn_app_exact _ _ 32 Wdek).
+  assert (Shb : slice file 0 96 = hb).
+  { rewrite Hfile. unfold signed. rewrite <- !app_assoc. replace 96%nat with (0 + length hb)%nat by (rewrite Lhb; reflexivity).
+    apply (slice_at [] hb). reflexivity. }
+  rewrite Shb. rewrite <- (app_nil_r hb). rewrite (ihdr_parse_export _ hb [] Ehb Hpv Hcv).
+  cbn [ih_cert_off ih_flags ih_nonce ih_pv ih_cv ih_build ih_ts]. change (208 =? N.of_nat 208) with true. cbn [negb].
+  (* certificate block size *)
+  assert (Sk208 : skipn 208 file = cbb ++ shab ++ x_sig x ++ bs).
+  { rewrite Hfile. unfold signed. rewrite <- !app_assoc. rewrite (app_assoc hb hm), (app_assoc (hb ++ hm) kb).
+    apply skipn_app_exact. rewrite !app_length. lia. }
+  rewrite Sk208.
+  destruct (cb_export_inv _ _ _ _ Ecb) as (_ & cbtl & Ecbb & Fcb).
+  set (cflds := [FB CERT_SIGNATURE; FI 1; FI 0; FI (N.of_nat CERTHDR_SIZE); FI (cb_flags (x_cb x)); FI (x_build x);
+                 FI (N.of_nat (208 + cbraw)); FI (nlen (cb_certs (x_cb x))); FI (N.of_nat (cb_table_len (x_cb x)))]) in *.
+  assert (Hcbsz : cb_parse_size (cbb ++ shab ++ x_sig x ++ bs) = Ok cbraw).
+  { unfold cb_parse_size.
+    assert (Lc : (32 <= length cbb)%nat).
+    { rewrite Lcbb. unfold cbraw, cb_raw_size. pose proof (align16_ge (CERTHDR_SIZE + cb_table_len (x_cb x) + 128)).
+      change CERTHDR_SIZE with 32%nat in *. lia. }
+    replace (Nat.ltb (length (cbb ++ shab ++ x_sig x ++ bs)) CERTHDR_SIZE) with false
+      by (symmetry; apply Nat.ltb_ge; rewrite app_length; change CERTHDR_SIZE with 32%nat; lia).
+    assert (Hcu : unpack certhdr_format (cbb ++ shab ++ x_sig x ++ bs) = canons certhdr_format cflds).
+    { rewrite Ecbb, <- app_assoc. apply unpack_pack. apply pack_fits_ok; [reflexivity|exact Fcb|].
+      unfold certhdr_format, cflds. repeat constructor. }
+    rewrite Hcu. unfold cflds, certhdr_format. cbn [canons canon snd]. cbv beta iota.
+    change (eqb_list (fit 4 CERT_SIGNATURE) CERT_SIGNATURE) with true. cbn [negb].
+    rewrite N.eqb_refl. cbn [negb].
+    assert (Hctl : (cb_table_len (x_cb x) + 128 <= cbraw)%nat).
+    { unfold cbraw, cb_raw_size. pose proof (align16_ge (CERTHDR_SIZE + cb_table_len (x_cb x) + 128)). lia. }
+    replace (nlen (cbb ++ shab ++ x_sig x ++ bs) <? N.of_nat (cb_table_len (x_cb x)) + 128) with false
+      by (symmetry; apply N.ltb_ge; unfold nlen; rewrite app_length, Lcbb; lia).
+    rewrite Nat2N.id. reflexivity. }
+  rewrite Hcbsz. fold sha.
+  replace (if sha then (208 + cbraw + 32)%nat else (208 + cbraw)%nat) with (208 + cbraw + shasz)%nat
+    by (unfold shasz; destruct sha; lia).
+  fold index2. unfold aligned16. rewrite Hal. cbn [Nat.eqb negb].
+  (* first section *)
+  assert (Hfile2 : file = (signed ++ x_sig x) ++ b0 ++ r0) by (rewrite Hfile, <- Hbs, <- app_assoc; reflexivity).
+  rewrite Hfile2 at 1. rewrite (Hparse (signed ++ x_sig x) r0 index2 Lpre).
+  (* SHA-256 over all section bytes *)
+  assert (Hshack : sha && negb (eqb_list (slice file (208 + cbraw) (208 + cbraw + 32)) (sha256 (skipn index2 file))) = false).
+  { destruct sha eqn:Esha; [|reflexivity]. cbn [andb]. apply negb_false_iff.
+    assert (Sb : skipn index2 file = bs).
+    { rewrite Hfile, app_assoc. apply skipn_app_exact. exact Lpre. }
+    assert (S : slice file (208 + cbraw) (208 + cbraw + 32) = sha256 bs).
+    { rewrite Hfile. unfold signed. rewrite <- !app_assoc.
+      rewrite (app_assoc hb hm), (app_assoc (hb ++ hm) kb), (app_assoc ((hb ++ hm) ++ kb) cbb).
+      unfold shab. replace (208 + cbraw + 32)%nat with (208 + cbraw + length (sha256 bs))%nat by (rewrite sha256_length; reflexivity).
+      apply slice_at. rewrite !app_length. lia. }
+    rewrite S, Sb. apply eqb_list_refl. }
+  rewrite Hshack. reflexivity.
+Qed.
+
+End ParseImage.
+
+(* ------------------------------------------------------------------ what acceptance by BootImageV21.parse implies *)
+Lemma sec_parse_ok_hmac ek mac nonce ctr data off r :
+  sec_parse ek mac nonce ctr data off = Ok r ->
+  eqb_list (slice data (off + 16) (off + 48)) (hmac256 mac (slice data off (off + 16))) = true.
+Proof.
+  unfold sec_parse. destruct (eqb_list _ _); [reflexivity|]. cbn [negb]. discriminate.
+Qed.
+
+Lemma parse21_accept_lemma (E D : list N -> list N -> list N) sig_ok sigsize kek data p :
+  parse21 E D sig_ok sigsize kek data = Ok p ->
+  sig_ok = true /\
+  (exists keys, kw_unwrap (D kek) (firstn (length (slice data 128 208) - 8) (slice data 128 208)) = Some keys /\
+                p_dek p = firstn 32 keys /\ p_mac p = skipn 32 keys) /\
+  (let i := (p_signed_len p + p_sig_len p)%nat in
+   eqb_list (slice data (i + 16) (i + 48)) (hmac256 (p_mac p) (slice data i (i + 16))) = true).
+Proof.
+  unfold parse21. destruct kek as [|k0 kt]; [discriminate|].
+  change (IHDR_SIZE + 32)%nat with 128%nat. change PRE_SIZE with 208%nat.
+  set (kb := slice data 128 208).
+  destruct (py_unwrap D (k0 :: kt) (firstn (length kb - 8) kb)) as [un|] eqn:Eun; [|discriminate].
+  destruct (ihdr_parse _) as [h|]; [|discriminate].
+  destruct (negb (ih_cert_off h =? N.of_nat 208)); [discriminate|].
+  destruct (cb_parse_size _) as [cbraw|]; [|discriminate].
+  destruct sig_ok; [|discriminate]. cbn [negb].
+  set (sigidx := if has_sha (ih_flags h) then (208 + cbraw + 32)%nat else (208 + cbraw)%nat).
+  destruct (aligned16 (sigidx + sigsize)); [|discriminate]. cbn [negb].
+  destruct (sec_parse _ _ _ _ _ _) as [[[[uid hcnt] ps] sz]|] eqn:Esec; [|discriminate].
+  destruct (has_sha (ih_flags h) && _); [discriminate|].
+  intros Hp. injection Hp as <-. cbn [p_dek p_mac p_signed_len p_sig_len].
+  split; [reflexivity|]. split.
+  - unfold py_unwrap in Eun. destruct (negb (aes_key_ok (k0 :: kt))); [discriminate|].
+    destruct (_ || _); [discriminate|]. destruct (kw_unwrap _ _) as [keys|]; [|discriminate].
+    injection Eun as <-. exists keys. auto.
+  - cbv zeta. eapply sec_parse_ok_hmac. exact Esec.
+Qed.
 
 (* ------------------------------------------------------------------ concrete instances (non-vacuity, refutations) *)
 Definition demo_secs : list section :=
@@ -1845,4 +2096,31 @@ Lemma parse21_refuted_thm :
                    length (x_secs x) = 2%nat /\ length (p_secs p) = 1%nat /\ x_flags x = 8 /\ p_flags p = 32776.
 Proof.
   exact parse21_refuted_lemma.
+Qed.
+
+Lemma parse21_first_section_thm :
+  forall (E D : list N -> list N -> list N),
+  (forall k b, length (E k b) = 16%nat) -> (forall k b, length b = 16%nat -> D k (E k b) = b) ->
+  forall counted x file,
+  wf_sbin x -> bcd3 (x_pv x) = true -> bcd3 (x_cv x) = true -> aes_key_ok (x_kek x) = true ->
+  build21_gen E counted x = Ok file ->
+  exists s0 rest os cd,
+    x_secs x = s0 :: rest /\ cmds_export (s_cmds s0) = Ok cd /\ Forall2 (fun c o => cmd_obs c = Ok o) (s_cmds s0) os /\
+    parse21 E D true (x_sigsize x) (x_kek x) file =
+    Ok (mkParsed 32776 (x_pv x) (x_cv x) (x_build x) (x_ts x / 1000000 * 1000000) (x_nonce x) (x_dek x) (x_mac x)
+                 [(s_uid s0, N.of_nat (sec_hmac_count (s_hmac s0) (length cd)), os)] (signed_len_of x) (x_sigsize x)).
+Proof.
+  exact parse21_first_section_lemma.
+Qed.
+
+Lemma parse21_accepts_only_verified_thm :
+  forall (E D : list N -> list N -> list N) sig_ok sigsize kek data p,
+  parse21 E D sig_ok sigsize kek data = Ok p ->
+  sig_ok = true /\
+  (exists keys, kw_unwrap (D kek) (firstn (length (slice data 128 208) - 8) (slice data 128 208)) = Some keys /\
+                p_dek p = firstn 32 keys /\ p_mac p = skipn 32 keys) /\
+  (let i := (p_signed_len p + p_sig_len p)%nat in
+   eqb_list (slice data (i + 16) (i + 48)) (hmac256 (p_mac p) (slice data i (i + 16))) = true).
+Proof.
+  exact parse21_accept_lemma.
 Qed.
